@@ -142,8 +142,9 @@ Place(fs, k, t, L, w0) ==
       [] k = "dir" ->         \* mkdir tolerates an existing entry; extractall sets mode and times of directory members at the very end
             IF Kind(fs, L) = "none" THEN ResL(TRUE, Put(fs, E(L, "dir", <<>>)), w0 \cup {L}, {L})
             ELSE ResL(TRUE, fs, w0, {L})
-      [] OTHER ->             \* symbolic link: an existing non-directory entry is unlinked first, nothing is followed
-            IF Kind(fs, L) = "dir" THEN Res(FALSE, fs, w0)
+      [] OTHER ->             \* symbolic link: an existing non-directory entry is unlinked first, nothing is followed;
+                              \* over a directory the link cannot be made: tarfile reports a non-fatal error and goes on
+            IF Kind(fs, L) = "dir" THEN Res(TRUE, fs, w0)
             ELSE Res(TRUE, Put(fs, E(L, "sym", t)), w0 \cup {L})
 
 (* ---- member i of archive inp extracted below directory `base` (tarfile._extract_member) ----------------------------- *)
@@ -153,7 +154,14 @@ ApplyMember(fs, inp, i, base) ==
         fs1 == PutDirs(fs, par.made)
     IN IF ~par.ok THEN Res(FALSE, fs1, par.made)
        ELSE LET L == Loc(par.p, Last(m.n))
-            IN IF m.k # "hard" THEN Place(fs1, m.k, m.t, L, par.made)
+            IN IF m.k = "sym" /\ Kind(fs1, L) = "dir" THEN
+                 \* a symbolic link over an existing directory cannot be made: tarfile falls back to extracting the earlier
+                 \* member its target names (relative to the link's directory) at L; without one: a non-fatal error, next member
+                 LET J == {j \in 1..(i - 1) : inp[j].n = Front(m.n) \o m.t}
+                 IN IF J = {} THEN Res(TRUE, fs1, par.made)
+                    ELSE LET M == inp[CHOOSE j \in J : \A x \in J : x <= j]
+                         IN IF M.k = "hard" THEN Res(FALSE, fs1, par.made) ELSE Place(fs1, M.k, M.t, L, par.made)
+               ELSE IF m.k # "hard" THEN Place(fs1, m.k, m.t, L, par.made)
                ELSE
                  \* hard link: os.link(<extraction root>/linkname, L) when that exists; the member's mode and times are then
                  \* applied to the shared inode.  When the link cannot be made tarfile falls back to extracting the earlier
@@ -239,7 +247,8 @@ Members ==
     CASE Mode = "archive" ->
             [k : {"file"} \cap Kinds, n : {s \in Names : Proper(s)}, t : {<<>>}]
             \cup [k : {"dir"} \cap Kinds, n : Names, t : {<<>>}]
-            \cup [k : {"sym", "hard"} \cap Kinds, n : {s \in Names : Proper(s) /\ Len(s) <= LinkNameLen}, t : LinkTargets]
+            \cup {m \in [k : {"sym", "hard"} \cap Kinds, n : {s \in Names : Proper(s) /\ Len(s) <= LinkNameLen}, t : LinkTargets] :
+                        m.t # m.n}          \* a link to itself is excluded (tarfile recurses without bound on some of them)
       [] Mode = "manifest" -> [k : {"copy", "link"}, n : Names, t : Srcs]
       [] OTHER -> [k : {"copy", "link"}, n : {<<>>}, t : {"pa", "qa", "pd", "qd"}] \cup {[k |-> "extract", n |-> <<>>, t |-> "arch"]}
 Distinct(inp) == \A i, j \in 1..Len(inp) : i # j => inp[i].n # inp[j].n
@@ -278,6 +287,9 @@ Confined == \A p \in writes : Inside(p)
 NoOverRejection == (pc = "rejected" /\ Guard = "resolve") => Hostile(input)
 (* the incremental machine and the recursive definition agree (sanity of the specification itself) *)
 RunAgrees == (pc \in {"done", "failed"}) => writes = Outcome(input).w
+(* vacuity guard of the driver: which control states were reached (TLC's -coverage is unusably slow on the recursive *)
+(* operators of this module); "rejected" <=> Reject taken, "run" <=> Accept, "failed" or i > 1 <=> Step, "done" <=> Finish *)
+TracePc == PrintT(<<"pc", pc, IF i > 1 THEN "stepped" ELSE "-">>)
 TypeOK == pc \in {"guard", "run", "rejected", "failed", "done"} /\ i \in 1..(MaxMembers + 1)
 
 (* Only locations below the sandbox root that did not exist before, for the comparison with the real tree *)
